@@ -552,6 +552,11 @@ func c10(c *ctx) {
 		if f == nil {
 			continue
 		}
+		if errIdx(f) >= 0 {
+			c.mpt(mptSpec{rule: "R3", fn: f, events: evSet{"TimeMachine": {timeMachine}},
+				target: tgtOkReturn("ok-return"),
+				reqs:   func(string) []string { return []string{"TimeMachine.ok"} }, minTarget: 1})
+		}
 		cs := callsIn(f, true, timeMachine)
 		if len(cs) == 0 {
 			// may delegate to a helper that does
@@ -577,6 +582,73 @@ func c10(c *ctx) {
 	r.Rule("R6", "ALIAS", "a read-only view shares no mutable component with the live store: every field of the Store built by NewReadOnly is constructed there from the snapshot readers; only log, db, metrics, config and the version number come from the receiver", 8)
 	c.ruleReadOnlyIsolated("R6")
 	c.ruleRollbackPrunesAllPrefixes("R7")
+	c.ruleTxnCopyIndependent("R8")
+}
+
+// ruleTxnCopyIndependent (C10.R8): Store.Copy gives the mempool its own store over the same pending writes. The copy is
+// independent only if the in-memory write set is: txn.copy must build its own ops map AND its own sorted key index (a
+// shared index lists keys the other side has no operation for — read as deletes — and is cleared by the other side's
+// Discard), valueOp.copy must clone key and value, and Txn.Copy must take its write set from txn.copy.
+func (c *ctx) ruleTxnCopyIndependent(R string) {
+	r := c.r
+	r.Rule(R, "ALIAS", "store copies share no pending-write structure: no reference-typed field of the transaction txn.copy returns is the receiver's own field (each is made or cloned there), valueOp.copy clones key and value, and Txn.Copy's write set is txn.copy()", 5)
+	cp := c.fn("store.(*txn).copy")
+	if cp == nil {
+		return
+	}
+	selfField := regexp.MustCompile(`^\*?&?\$0(\.[A-Za-z_][A-Za-z0-9_]*)+$`)
+	check := func(f *ssa.Function, onlyRef bool) int {
+		n := 0
+		for _, g := range bodyFuncs(f, true) {
+			instrs(g, func(in ssa.Instruction) {
+				st, ok := in.(*ssa.Store)
+				if !ok {
+					return
+				}
+				fa, ok := st.Addr.(*ssa.FieldAddr)
+				if !ok || !isFreshAlloc(fa.X) {
+					return
+				}
+				stt := derefStruct(fa.X.Type())
+				if stt == nil || fa.Field >= stt.NumFields() {
+					return
+				}
+				fld := stt.Field(fa.Field)
+				if !isRefType(fld.Type()) {
+					return
+				}
+				n++
+				p := c.p.path(st.Val)
+				shared := false
+				for _, a := range expandPhi(p) {
+					if selfField.MatchString(a) {
+						shared = true
+					}
+				}
+				r.Check(!shared, fmt.Sprintf("%s/%s/%s", R, fnName(f), fld.Name()), c.p.Pos(st.Pos()), fld.Name()+" = "+short(p), fmt.Sprintf("%s puts the receiver's own %s (%s) into the copy: original and copy then share it, so a key written (or a Discard made) through one side changes what the other side iterates", fnName(f), fld.Name(), p))
+			})
+		}
+		return n
+	}
+	n := check(cp, true)
+	if vcp := c.fnQuiet("store.(valueOp).copy"); vcp != nil {
+		n += check(vcp, true)
+	}
+	r.Analysed["copy_reference_fields"] = n
+	if tc := c.fn("store.(*Txn).Copy"); tc != nil {
+		txnF := c.field("store", "Txn", "txn")
+		found := false
+		for _, g := range bodyFuncs(tc, true) {
+			instrs(g, func(in ssa.Instruction) {
+				if fv, _, val := storeField(in); fv != nil && fv == txnF {
+					found = true
+					p := c.p.path(val)
+					r.Check(has(p, "$0.txn.copy()"), R+"/Txn.Copy/write-set", c.p.Pos(in.Pos()), "txn = t.txn.copy()", "Txn.Copy gives the copy the write set "+p+" instead of t.txn.copy(): both stores would share pending writes")
+				}
+			})
+		}
+		r.Check(found, R+"/Txn.Copy/sets-txn", c.p.Pos(tc.Pos()), "Txn.Copy sets the write set", "Txn.Copy no longer sets the copy's write set")
+	}
 }
 
 // ruleReadOnlyIsolated (C10.R6 / C16.R3): the Store returned by NewReadOnly must not alias the live store's state store,
@@ -838,6 +910,33 @@ func c16(c *ctx) {
 	}
 	r.Rule("R3", "ALIAS", "proofs for a committed height come from that height's tree: the read-only view builds its own commitment tree from the snapshot at the query version and borrows no mutable component of the live store (whose tree holds the block under construction)", 8)
 	c.ruleReadOnlyIsolated("R3")
+
+	// ------------------------------------------------------------------ R4
+	// completeness: an absent key's proof starts at the node the traversal stops at, and for keys hashing beyond the
+	// smallest / largest stored key that node IS the minimum / maximum sentinel. The reserved-key guard therefore belongs to
+	// the key being asked about (the target), never to the traversal's current node.
+	r.Rule("R4", "FLOW", "every key has a proof: SMT.validateTarget (the reserved-key guard) is applied only to an operation's own target node — never to the node a traversal ended on, which for an absent key at the edge of the key space is legitimately a sentinel", 3)
+	if vt := c.fn("store.(*SMT).validateTarget"); vt != nil {
+		n := 0
+		for _, f := range c.p.Funcs {
+			if !inCanopyRaw(f) || pkgShort(f) != "store" || isTestFile(c.p, f.Pos()) {
+				continue
+			}
+			instrs(f, func(in ssa.Instruction) {
+				cc := callCommon(in)
+				if cc == nil || !callIs(cc, vt) || len(cc.Args) < 2 {
+					return
+				}
+				n++
+				p := c.p.path(cc.Args[1])
+				okArg := allAlts(p, func(a string) bool {
+					return !strings.Contains(a, ".current") && (strings.Contains(a, ".target") || strings.Contains(a, "valueOpToSMTNode(") || strings.Contains(a, "new(node)") || isParamPath(a))
+				})
+				r.Check(okArg, "R4/validateTarget/"+fnName(enclosing(f)), c.p.Pos(in.Pos()), "guard applied to "+short(p), fnName(enclosing(f))+" applies the reserved-key guard to "+p+", not to the target of the operation: keys whose traversal legitimately ends on the minimum / maximum sentinel (absent keys at the edge of the key space) can no longer be proven absent")
+			})
+		}
+		r.Analysed["reserved_key_guard_sites"] = n
+	}
 }
 
 // ruleRollbackPrunesAllPrefixes (C08.R6 / C09.R6 / C10.R7): Rollback must remove the abandoned versions of EVERYTHING the
